@@ -201,7 +201,10 @@ def endWord (q t n : Int) : Int :=
 /-- the `next` function of an iterator (iter_int_range_next / iter_int_enum_next / iter_string_set_next /
     iter_text_string_set_next): the word it yields and the advanced iterator, or `none` when exhausted -/
 def iterAdvance : Iter → Option (Int × Iter)
-  | .range nx last => if !isU nx && !isU last && nx ≤ last then some (nx, .range (C.add nx 1) last) else none
+  | .range nx last =>
+    -- `next` is not stepped past INT64_MAX: an undefined `next` marks the iterator as exhausted
+    if !isU nx && !isU last && nx ≤ last then some (nx, .range (if nx == C.INT64_MAX then C.UNDEF else C.add nx 1) last)
+    else none
   | .list items k =>
     match items[k]? with
     | some v => some (v, .list items (k + 1))
